@@ -33,6 +33,9 @@ enum Kind {
 
 #[derive(Debug, Clone, PartialEq)]
 enum Op {
+	/// play a sound whose conversion fails (a streaming sound whose decoder fails its first
+	/// seek) on the main track (owner 0) or on a track: nothing is created, no slot is used
+	FailingPlay(usize),
 	/// create a resource; `owner`: index into the list of created tracks (for TrackSound / SubTrack)
 	Create(Kind, usize),
 	/// drop the handle of the i-th created resource (marks it for removal; a sound keeps playing)
@@ -174,7 +177,7 @@ impl Model {
 }
 
 enum Handle {
-	Sound(ProbeSoundHandle),
+	Sound(#[allow(dead_code)] ProbeSoundHandle),
 	Track(TrackHandle),
 	Send(#[allow(dead_code)] SendTrackHandle),
 	Clock(#[allow(dead_code)] ClockHandle),
@@ -318,6 +321,26 @@ fn run_case(c: &Case) -> Result<(bool, usize), Failure> {
 						model.res.push(Res { place: Place::Refused, ..r });
 					}
 				}
+			}
+			Op::FailingPlay(owner_sel) => {
+				use crate::probes::{FaultPlan, ScriptDecoder};
+				use kira::sound::streaming::StreamingSoundData;
+				use kira::PlaySoundError;
+				let frames: Arc<[Frame]> = vec![Frame::ZERO; 8].into();
+				let (mut dec, _log) = ScriptDecoder::new(frames, 8000);
+				dec.fault = FaultPlan::Seek { k: 0, forever: true };
+				let data = StreamingSoundData::from_decoder(dec);
+				let track_ids: Vec<usize> = (0..model.res.len()).filter(|i| model.is_track(*i) && model.res[*i].place != Place::Refused && handles[*i].is_some()).collect();
+				let r = if *owner_sel == 0 || track_ids.is_empty() {
+					mgr.play(data).map(|_| ())
+				} else {
+					let o = track_ids[owner_sel % track_ids.len()];
+					match &mut handles[o] {
+						Some(Handle::Track(t)) => t.play(data).map(|_| ()),
+						_ => continue,
+					}
+				};
+				ensure!(matches!(r, Err(PlaySoundError::IntoSoundError(_))), "failed-play-reports-the-sound-error", "op #{oi}: playing a sound whose decoder fails returned {:?}; case {c:?}", r.as_ref().map_err(|e| format!("{e:?}")));
 			}
 			Op::Drop(i) => {
 				if model.res.is_empty() {
@@ -515,14 +538,15 @@ fn decode(src: &mut Src, tier: Tier) -> Case {
 	// most histories concentrate on one or two kinds so that capacities are actually reached
 	let focus = [kinds[src.index(kinds.len())], kinds[src.index(kinds.len())], Kind::TopTrack];
 	for _ in 0..n {
-		let op = match src.weighted(&[8, 5, 2, 5]) {
+		let op = match src.weighted(&[8, 5, 2, 5, 1]) {
 			0 => {
 				let k = if src.chance(3, 4) { focus[src.index(3)] } else { kinds[src.index(kinds.len())] };
 				Op::Create(k, src.index(8))
 			}
 			1 => Op::Drop(src.index(64)),
 			2 => Op::Finish(src.index(64)),
-			_ => Op::Callback(src.pick(&[ibs, 1, ibs * 2 + 1])),
+			3 => Op::Callback(src.pick(&[ibs, 1, ibs * 2 + 1])),
+			_ => Op::FailingPlay(src.index(4)),
 		};
 		ops.push(op);
 	}
